@@ -25,7 +25,8 @@ Search (the property itself): every sequence SMGen returns (several seeds of `ra
 `numpy.random` drawn from ctx.rng) is judged by the reference oracle
 designrun.oracle_valid(docsem.doc_sem(program), ...) including its length; a violated
 component names the finding: smgen:length:<Shape>, smgen:ignored:<Kind>,
-smgen:crossing:<Shape>, smgen:derived:<Shape>; an exception other than the documented
+smgen:crossing:<Shape>, smgen:derived:<Shape> (a length signature carries the family name, or
+":length-theorem-applies" when the hypotheses of C29_sm_length hold for the block); an exception other than the documented
 refusal after the gate was passed is reported as smgen:raises:<Exc>:<function>.
 """
 import copy
@@ -45,39 +46,6 @@ LEVEL = "proof (gate, length) + translation_validation (search outputs); timer i
 DOMAINS = ['SM', 'Design']
 
 REFUSED = ("AtMostKInARow", "AtLeastKInARow", "ExactlyK", "Exclude", "Pin")
-
-
-# --------------------------------------------------------------------------- predicates usable by SMGen
-
-def _mk_predicate(built, fdesc, lev, dep_names, dep_levels, width):
-    """As ir._mk_predicate, but reads a window argument by its documented keys
-    (-(width-1) .. 0) instead of iterating over it: SMGen's core passes a transition
-    argument as the two-element list [current, previous], which answers [0] and [-1]
-    like the documented dict but cannot be iterated as one."""
-    accepted = set()
-    for entry in lev.get("table", []):
-        accepted.add(tuple(tuple(x) for x in entry))
-
-    def check_domain(cols):
-        for names, allowed in zip(cols, dep_levels):
-            for n in names:
-                if n is not None and n not in allowed:
-                    built.outside_domain.append((fdesc["name"], lev["name"], repr(cols)))
-
-    if width == 1:
-        def pred(*args):
-            cols = tuple((a,) for a in args)
-            check_domain(cols)
-            return cols in accepted
-    else:
-        def pred(*args):
-            cols = tuple(tuple(a[j - width + 1] for j in range(width)) for a in args)
-            check_domain(cols)
-            return cols in accepted
-    return pred
-
-
-ir._mk_predicate = _mk_predicate
 
 
 # --------------------------------------------------------------------------- running SMGen under control
@@ -354,6 +322,39 @@ def hand_programs():
     return out
 
 
+def family_programs():
+    """Deterministic family (every tier): a derived factor over two trials in the crossing, the first
+    design factor crossed, MinimumTrials(k) for every k from preamble+S to preamble+3S (S = crossing size).
+    Transition windows pass the gate (the preamble row is prepended to every column before the
+    maximum_trials truncation); the same window written with the Window class is refused."""
+    out = []
+    for nlev, fam in ((2, "transition-minimumtrials"), (3, "transition-minimumtrials")):
+        names = ["r", "g", "b"][:nlev]
+        color = F(0, "color", names)
+        same = [[[n, n]] for n in names]
+        tr = {"id": 1, "name": "tr", "kind": "derived", "window": {"type": "transition", "deps": [0]},
+              "levels": [{"name": "same", "table": same}, {"name": "diff", "else": True}]}
+        S, P = nlev * 2, 1
+        for k in range(P + S, P + 3 * S + 1):
+            out.append(("family:%s" % fam,
+                        cross([0, 1], [0, 1], [0], [{"id": 0, "kind": "MinimumTrials", "trials": k}], [color, copy.deepcopy(tr)])))
+    color = F(0, "color", ["r", "g"])
+    extra = F(2, "shape", ["o", "x"])
+    tr = {"id": 1, "name": "tr", "kind": "derived", "window": {"type": "transition", "deps": [0]},
+          "levels": [{"name": "same", "table": [[["r", "r"]], [["g", "g"]]]}, {"name": "diff", "else": True}]}
+    for k in range(5, 14):
+        # crossing listed the other way round, an uncrossed factor last in the design
+        out.append(("family:transition-minimumtrials",
+                    cross([0, 1, 2], [1, 0], [0], [{"id": 0, "kind": "MinimumTrials", "trials": k}], [color, copy.deepcopy(tr), extra])))
+    win = {"id": 1, "name": "win", "kind": "derived", "window": {"type": "window", "deps": [0], "width": 2, "stride": 1, "start": 1},
+           "levels": [{"name": "same", "table": [[["r", "r"]], [["g", "g"]]]},
+                      {"name": "diff", "table": [[["r", "g"]], [["g", "r"]]]}]}
+    for k in range(5, 14):
+        out.append(("family:window-minimumtrials",
+                    cross([0, 1], [0, 1], [0], [{"id": 0, "kind": "MinimumTrials", "trials": k}], [color, copy.deepcopy(win)])))
+    return out
+
+
 def variants(rng, program):
     """Derived-of-derived / Window-class / multi-argument variants of a generated program."""
     p = copy.deepcopy(program)
@@ -375,6 +376,7 @@ def variants(rng, program):
 def gen_programs(ctx, n):
     rng = ctx.rng
     out = [("hand:" + t, p) for t, p in hand_programs()]
+    out += family_programs()
     out += [("corpus:" + t, p) for t, p in gen_design.corpus()]
     shapes = ["cross", "cross", "cross", "cross", "repeat", "repeat", "multi", "merge", "nest", "cross"]
     i = 0
@@ -415,8 +417,10 @@ def sem_constraint_kinds(program, ds):
     return kinds
 
 
-def judge(program, ds, seqs_raw):
-    """List of (sig, what, sample) for the sequences the oracle rejects."""
+def judge(program, ds, seqs_raw, suffix=""):
+    """List of (sig, what, sample) for the sequences the oracle rejects.  `suffix` refines the
+    length signature (family name, or that the hypotheses of C29_sm_length hold) so that a new
+    length defect is never taken for the listed one."""
     sh = shape(program)
     out = []
     seqs = []
@@ -424,7 +428,7 @@ def judge(program, ds, seqs_raw):
     for smp in seqs_raw:
         lens = sorted(set(len(v) for v in smp.values()))
         if lens != [ds.T]:
-            out.append(("smgen:length:" + sh, "returned columns of length %s, documented trial count %d" % (lens, ds.T), smp))
+            out.append(("smgen:length:" + sh + suffix, "returned columns of length %s, documented trial count %d" % (lens, ds.T), smp))
             continue
         q = docsem.seq_of_sample(ds, smp)
         if q is None:
@@ -467,7 +471,7 @@ def judge(program, ds, seqs_raw):
 
 # --------------------------------------------------------------------------- one program
 
-def run_program(ctx, program, nseeds, limit, seeds=None):
+def run_program(ctx, program, nseeds, limit, seeds=None, tag=""):
     r = {"status": None}
     built = ir.build(program)
     block = ir.main_block(built, program)
@@ -493,6 +497,11 @@ def run_program(ctx, program, nseeds, limit, seeds=None):
     except Exception as e:  # noqa
         ds = None
         r["doc"] = "error: " + type(e).__name__
+    suffix = ""
+    if tag.startswith("family:"):
+        suffix = ":" + tag.split(":", 1)[1]
+    elif length_hypotheses(s):
+        suffix = ":length-theorem-applies"
     r["runs"] = []
     r["found"] = []
     seeds = seeds or [ctx.rng.randrange(2 ** 31) for _ in range(nseeds)]
@@ -512,7 +521,7 @@ def run_program(ctx, program, nseeds, limit, seeds=None):
                 break          # deterministic refusal / crash, or a search that does not end: the other seeds add nothing
             continue
         if ds is not None:
-            for sig, what, smp in judge(program, ds, out[1]):
+            for sig, what, smp in judge(program, ds, out[1], suffix):
                 r["found"].append((sig, what, {"seed": seed, "sample": smp}))
         if b2.outside_domain:
             r.setdefault("outside", b2.outside_domain[:2])
@@ -527,7 +536,9 @@ def run(ctx, res):
     nseeds = 3 if quick else 6
     limit = 1.0 if quick else 2.5
     res.rule = ("%d programs: hand-written (one per refusal / crash class, the known defects, weights, MinimumTrials, derived of "
-                "derived, Window-class and ElseLevel-first levels) + corpus + gen_design of every shape (cross, repeat, multi, "
+                "derived, Window-class and ElseLevel-first levels) + the family 'two-trial derived factor crossed with the first "
+                "design factor x MinimumTrials(k), k = preamble+S .. preamble+3S' (Transition: 2 and 3 levels, crossing order "
+                "swapped with an uncrossed factor; Window class: refused) + corpus + gen_design of every shape (cross, repeat, multi, "
                 "merge, nest) and constraint kind, half of them with the refused kinds removed so that the gate is passed; per "
                 "program the gate outcome vs. SMGate.gate and up to %d seeds x 2 sequences (wall-clock limit %.1fs per call), "
                 "every sequence judged by the reference oracle; non-trivial = the gate is reached (block built); distinct by "
@@ -537,7 +548,7 @@ def run(ctx, res):
     lines = []
     for tag, p in progs:
         try:
-            r = run_program(ctx, p, nseeds, limit)
+            r = run_program(ctx, p, nseeds, limit, tag=tag)
         except Exception as e:  # noqa
             import traceback
             r = {"status": "harness-error", "error": traceback.format_exc()[-400:]}
@@ -604,7 +615,8 @@ def run(ctx, res):
             continue
         seen.add(sig)
         res.violations.append(Violation(sig, "SMGen: " + what + "  program=" + json.dumps(p, sort_keys=True)[:1000],
-                                        {"program": p, "detail": detail, "sig": sig}))
+                                        {"program": p, "detail": detail, "sig": sig,
+                                         "tag": [r["tag"] for q, r in runs if q is p][0]}))
     if corr_bad:
         layer, p, d = corr_bad[0]
         res.violations.append(Violation(
@@ -624,6 +636,6 @@ def replay(ctx, data):
     seeds = None
     if isinstance(data.get("detail"), dict) and "seed" in data["detail"]:
         seeds = [data["detail"]["seed"]] + [ctx.rng.randrange(2 ** 31) for _ in range(7)]
-    r = run_program(ctx, p, 8, 3.0, seeds=seeds)
+    r = run_program(ctx, p, 8, 3.0, seeds=seeds, tag=data.get("tag", ""))
     sigs = [s for s, _, _ in r.get("found", [])]
     return data.get("sig") in sigs if data.get("sig") else bool(sigs)
